@@ -93,6 +93,9 @@ type c14Case struct {
 	Format string `json:"format"`
 	File   string `json:"file"`
 	Dtype  string `json:"dtype"`
+	// Receiver says what is decoded into: "" a fresh *Dense; "usedF" a column-major tensor of the same element type and
+	// another shape that was in use before
+	Receiver string `json:"receiver,omitempty"`
 	// filled by the decoder
 	Err     string   `json:"err,omitempty"`
 	GDtype  string   `json:"got_dtype,omitempty"`
@@ -157,6 +160,13 @@ func C14Decode(dir string) error {
 			continue
 		}
 		d := new(tensor.Dense)
+		if cs.Receiver == "usedF" {
+			if dt, ok := dtypeByName[cs.Dtype]; ok {
+				core.Catch(func() {
+					d = tensor.New(tensor.Of(gen.Dtype(dt)), tensor.WithShape(3, 2), tensor.AsFortran(nil))
+				})
+			}
+		}
 		var derr error
 		p, msg := core.Catch(func() {
 			switch cs.Format {
@@ -331,6 +341,12 @@ func c14Run(c *core.Ctx, format, lay string) {
 						desc: map[string]interface{}{"format": format, "source": op.Recipe, "mask": mk, "values": class},
 						key:  core.Sig(format, tn, shapeClass(shape), lay, mk, class)}
 					p.cs = c14Case{ID: id, Format: format, File: fmt.Sprintf("%d.%s", id, format), Dtype: tn}
+					if id%3 == 1 {
+						// every third case is decoded into a tensor that was something else before (column-major, another shape)
+						p.cs.Receiver = "usedF"
+						p.desc["receiver"] = "a used column-major (3,2) tensor of the same element type"
+						p.key = core.Sig(p.key, "into-used-F")
+					}
 					snap := op.Snap()
 					meta := gen.MetaOf(op.D)
 					var data []byte
@@ -445,6 +461,9 @@ func c14Run(c *core.Ctx, format, lay string) {
 				// what a fresh process reads back is arbitrary (other strings, empty dtype, a crash)
 				c.Violation(core.Sig(format, "roundtrip", "str", "process-local-string-headers"), caseKey, p.desc, w, g)
 				return
+			}
+			if p.cs.Receiver != "" {
+				sym += "|into-" + p.cs.Receiver
 			}
 			c.Violation(core.Sig(format, "roundtrip", dtypeClass(t), lay2, "mask="+mk, shapeClassCoarse(p.want.Shape), sym), caseKey, p.desc, w, g)
 		}
